@@ -125,17 +125,19 @@ package templ
 //@ func (ComponentScript) Render [C10]
 //@   implements Component.Render
 
-//@ lemma opt_id(e) [C01]: inL(e, HTML_ESCAPED) ==> inL(cat(" id=\"", e, "\""), OPT_ID_ATTR) by reglang
-//@ lemma opt_type(e) [C01]: inL(e, HTML_ESCAPED) ==> inL(cat(" type=\"", e, "\""), OPT_TYPE_ATTR) by reglang
-//@ lemma opt_nonce(e) [C01]: inL(e, HTML_ESCAPED) ==> inL(cat(" nonce=\"", e, "\""), OPT_NONCE_ATTR) by reglang
-//@ lemma json_script_el(a, b, c, d) [C01]: inL(a, OPT_ID_ATTR) && inL(b, OPT_TYPE_ATTR) && inL(c, OPT_NONCE_ATTR) && inL(d, JSON_HTMLSAFE) ==> inL(cat("<script", a, b, c, ">", d, "\n</script>"), JSON_SCRIPT_EL) by reglang
-//@ func (JSONScriptElement) Render [C10, C01]
+//@ lemma opt_id(e) [C01, C03]: inL(e, HTML_ESCAPED) ==> inL(cat(" id=\"", e, "\""), OPT_ID_ATTR) by reglang
+//@ lemma opt_type(e) [C01, C03]: inL(e, HTML_ESCAPED) ==> inL(cat(" type=\"", e, "\""), OPT_TYPE_ATTR) by reglang
+//@ lemma opt_nonce(e) [C01, C03]: inL(e, HTML_ESCAPED) ==> inL(cat(" nonce=\"", e, "\""), OPT_NONCE_ATTR) by reglang
+//@ lemma json_script_el(a, b, c, d) [C01, C03]: inL(a, OPT_ID_ATTR) && inL(b, OPT_TYPE_ATTR) && inL(c, OPT_NONCE_ATTR) && inL(d, JSON_HTMLSAFE) ==> inL(cat("<script", a, b, c, ">", d, "\n</script>"), JSON_SCRIPT_EL) by reglang
+// (C03: the body of the JSON script element is what encoding/json wrote for the data - no '<', '>' or '&', so the value
+// cannot end the element or open a comment - on every path, for every kind of data)
+//@ func (JSONScriptElement) Render [C10, C01, C03]
 //@   implements Component.Render
-//@   ensures {C01} implies(err == nil, inL(appended(w), JSON_SCRIPT_EL))
-//@   use {C01} exit: opt_id(html.EscapeString(j.ID))
-//@   use {C01} exit: opt_type(html.EscapeString(j.Type))
-//@   use {C01} exit: opt_nonce(html.EscapeString(nonce))
-//@   use {C01} exit: json_script_el(ite(j.ID != "", cat(" id=\"", html.EscapeString(j.ID), "\""), ""), ite(j.Type != "", cat(" type=\"", html.EscapeString(j.Type), "\""), ""), ite(nonce != "", cat(" nonce=\"", html.EscapeString(nonce), "\""), ""), json(j.Data))
+//@   ensures {C01, C03} implies(err == nil, inL(appended(w), JSON_SCRIPT_EL))
+//@   use {C01, C03} exit: opt_id(html.EscapeString(j.ID))
+//@   use {C01, C03} exit: opt_type(html.EscapeString(j.Type))
+//@   use {C01, C03} exit: opt_nonce(html.EscapeString(nonce))
+//@   use {C01, C03} exit: json_script_el(ite(j.ID != "", cat(" id=\"", html.EscapeString(j.ID), "\""), ""), ite(j.Type != "", cat(" type=\"", html.EscapeString(j.Type), "\""), ""), ite(nonce != "", cat(" nonce=\"", html.EscapeString(nonce), "\""), ""), json(j.Data))
 
 //@ func ToGoHTML [C10]
 //@   requires c != nil
